@@ -67,7 +67,7 @@ fn seeded_case<S: Spec>(sub: &str, id: u64, r: &mut Report) {
     r.eval();
     let d3 = data.clone();
     let fail = if p.chance(1, 2) { Some(p.below(4) as usize) } else { None };
-    match guarded(|| { let mut s = SourceRng::new(d3); s.fail_from = fail; let mut f = FallibleSource(s); S::R::try_from_rng(&mut f).ok() }) {
+    match guarded(|| { let mut s = SourceRng::new(d3); s.fail_from = fail; s.scribble = fail.map(|f| f % 2 == 0).unwrap_or(true); let mut f = FallibleSource(s); S::R::try_from_rng(&mut f).ok() }) {
         Ok(Some(h)) => { if p.chance(1, 4) { g = h; } }
         Ok(None) => {}
         Err(c) => return report_panic(&c, "try_from_rng", json!({"type": S::NAME, "fail_from_call": format!("{:?}", fail)}), sub, id, r),
